@@ -101,6 +101,45 @@ let predict (c : string) (obs : string) : string * string * bool =
   | ["http"; gun; fault; status; en; depth; nto; tag; path; _] ->
       (* the optional last field switches tracing / dumps / answer log on: no effect on samples *)
       predict_http gun fault status en depth nto tag path obs
+  | ["cfggun"; kind; variant; tag; path] ->
+      (* the auto-tag settings as documented (docs/eng/http-generator.md: disabled, uri-elements 2,
+         no-tag-only true - for every http gun kind) overlaid by the keys the section gives *)
+      let cfg = (match variant with
+                 | "en" | "en-nto1" -> { at_enabled = true; at_depth = nat_of_int 2; at_notagonly = true }
+                 | "en-nto0" -> { at_enabled = true; at_depth = nat_of_int 2; at_notagonly = false }
+                 | "en-d1" -> { at_enabled = true; at_depth = nat_of_int 1; at_notagonly = true }
+                 | _ -> { at_enabled = false; at_depth = nat_of_int 2; at_notagonly = true }) in
+      let tagb = bytes_of_hex tag and pathb = bytes_of_hex path in
+      let str s = List.init (String.length s) (fun i -> n_of_int (Char.code s.[i])) in
+      (match kind with
+       | "http" | "http2" | "connect" ->
+           let x = XResp (n_of_int 200, BodyOk) in
+           let want = s_samples [base_spec cfg false (n_of_int 7) tagb pathb x] in
+           (s_samples (base_shoot cfg HNone false (n_of_int 7) tagb pathb x), verdict (obs = want) ("expected " ^ want), true)
+       | "http/scenario" | "http2/scenario" ->
+           let st = [(str "first", HStepOk (n_of_int 200)); (str "second", HStepOk (n_of_int 404))] in
+           let want = s_samples (hscen_spec tagb st) in
+           (s_samples (hscen_shoot tagb st), verdict (obs = want) ("expected " ^ want), true)
+       | "grpc" ->
+           let want = s_samples [{ sm_tags = tagb; sm_proto = doc_code (n_of_int 0); sm_net = n_of_int 0; sm_id = n_of_int 0 }] in
+           (s_samples (grpc_shoot tagb (GCalled (n_of_int 0))), verdict (obs = want) ("expected " ^ want), true)
+       | "grpc/scenario" ->
+           let st = [(str "call0", GSCalled (n_of_int 0, false)); (str "call1", GSCalled (n_of_int 5, false))] in
+           let want = s_samples (gscen_spec tagb st) in
+           (s_samples (gscen_shoot tagb st), verdict (obs = want) ("expected " ^ want), true)
+       | _ -> ("unknown-case", "BAD:unknown-case", false))
+  | ["gjson"; phases] ->
+      (* every sample carries the tag of ITS ammo line ("" when the line has no tag key) *)
+      let idx = ref 0 in
+      let tags = List.concat_map (fun ph ->
+                   let (what, cnt) = cut '*' ph in
+                   List.init (int_of_string cnt) (fun _ -> incr idx;
+                     if what = "t" then Printf.sprintf "tg%d" (!idx mod 7) else "")) (String.split_on_char ',' phases) in
+      let str s = List.init (String.length s) (fun i -> n_of_int (Char.code s.[i])) in
+      let line f = String.concat " " (Printf.sprintf "n=%d" (List.length tags) :: List.map f tags) in
+      let pred = line (fun t -> match grpc_shoot (str t) (GCalled (n_of_int 0)) with [s] -> hex_of_bytes s.sm_tags | _ -> "?") in
+      let want = line (fun t -> hex_of_bytes (str t)) in
+      (pred, verdict (obs = want) "a sample does not carry the tag of its own ammo line", true)
   | ["phout"; phases] ->
       (* one sample per request, each depending on its own exchange only: the samples are values *)
       let cfg = { at_enabled = false; at_depth = nat_of_int 2; at_notagonly = true } in
